@@ -233,6 +233,8 @@ func main() {
 		inventory(pos[1])
 	case "e1dump":
 		e1dump(pos[1], pos[2], len(pos) > 3)
+	case "e1aborts":
+		e1aborts(pos[1], pos[2])
 	case "e1loops":
 		e1loops(pos[1], pos[2])
 	case "e1events":
